@@ -406,6 +406,7 @@ public:
           } else {
             J.attribute("rk", "global");
             J.attribute("qn", erasedName(VD));
+            J.attribute("qna", VD->getQualifiedNameAsString());
           }
         } else if (const auto *EC = dyn_cast<EnumConstantDecl>(VD)) {
           J.attribute("rk", "enum");
